@@ -1,4 +1,5 @@
 //! verif-harness: drives the real rs-matter code for the model-based checks in /verif.
+mod c03;
 mod c04;
 mod c05;
 mod c09;
@@ -20,6 +21,8 @@ fn main() {
     let h = std::thread::Builder::new()
         .stack_size(1 << 30)
         .spawn(move || match cmdc.as_str() {
+            "c03" => c03::run(&a[2..]),
+            "c04e2e" => c03::run_ctr(&a[2..]),
             "c04" => c04::run(&a[2..]),
             "c05" => c05::run(&a[2..]),
             "c09" => c09::run(&a[2..]),
